@@ -414,9 +414,11 @@ class Ctx:
         if self.notes:
             ev["coverage"]["notes"] = self.notes
         ev["coverage"]["known_finding_hits"] = self.known_hits
-        os.makedirs(EVID, exist_ok=True)
-        with open(os.path.join(EVID, f"{self.prop}.json"), "w") as f:
-            json.dump(ev, f, indent=1, default=str)
+        # a run against a deliberately changed /repo (tools/seedtest.py) must not replace the evidence of the real tree
+        if not os.environ.get("SGV_NO_EVIDENCE"):
+            os.makedirs(EVID, exist_ok=True)
+            with open(os.path.join(EVID, f"{self.prop}.json"), "w") as f:
+                json.dump(ev, f, indent=1, default=str)
         return 1 if self.violations else 0
 
     def sample(self, obj, cap=6):
